@@ -343,6 +343,13 @@ def check_flatten(case, rec):
         lab = ['L%s' % v for v in labels[:len(tables)]]
     if case.get('group_labels'):              # genuine group labels repeat: conditions, hemispheres, group ids
         lab = [lab[i % 2] for i in range(len(lab))]
+    if case.get('hetero') and len(tables) >= 2:
+        # tables that do not share one column set (one analysed without is_burst, one carrying an annotation): nothing is dropped,
+        # missing entries are NaN
+        k_ = case['hetero'] % len(tables)
+        drop_ = [c_ for c_ in ('is_burst', 'monotonicity', 'burst_fraction') if c_ in tables[k_].columns][:1]
+        tables[k_] = tables[k_].drop(columns=drop_)
+        tables[(k_ + 1) % len(tables)] = tables[(k_ + 1) % len(tables)].assign(trial=7.0)
     originals = [t.copy(deep=True) for t in tables]
     if case['shape'] == '1d':
         dfs = [t.copy(deep=True) for t in tables]
@@ -364,7 +371,10 @@ def check_flatten(case, rec):
         raise Violation('flatten_dfs:row-count', '%d rows, tables hold %d' % (len(out), total))
     if col not in out.columns:
         raise Violation('flatten_dfs:no-label-column', col)
-    expected_cols = list(originals[0].columns) + ([col] if col not in originals[0].columns else [])
+    expected_cols = []
+    for t_ in originals:
+        expected_cols += [c_ for c_ in t_.columns if c_ not in expected_cols]
+    expected_cols += [col] if col not in expected_cols else []
     if not isinstance(out, pd.DataFrame) or sorted(map(str, out.columns)) != sorted(map(str, expected_cols)):
         raise Violation('flatten_dfs:columns', 'columns %s, the tables have %s plus the label column' % (list(map(str, out.columns))[:12], list(map(str, originals[0].columns))[:12]))
     pos = 0
@@ -419,7 +429,7 @@ def strat_flatten(draw, tier):
     return {'shape': shape, 'n0': n0, 'tables': tables, 'labels': labels, 'method': draw(st.sampled_from(['cycles', 'amp'])),
             'label_type': draw(st.sampled_from(['str', 'str', 'int'])),
             'label_container': draw(st.sampled_from(['list', 'array'] + (['flat'] if shape == '2d' else []))),
-            'column_name': draw(st.sampled_from([None, None, 'Channel'])), 'group_labels': draw(st.integers(0, 2)) == 0, 'relabel': draw(st.integers(0, 2)) == 0}
+            'column_name': draw(st.sampled_from([None, None, 'Channel'])), 'group_labels': draw(st.integers(0, 2)) == 0, 'relabel': draw(st.integers(0, 2)) == 0, 'hetero': draw(st.one_of(st.just(0), st.just(0), st.just(0), st.integers(1, 9)))}
 
 
 PARTS = [
